@@ -268,7 +268,7 @@ theorem evalConst_spec {e : Expr} {v : Val} (h : evalConst e = some v) (s : Stor
 /-- the (possibly folded) argument of `sleep`/`range` has the same integer value on both sides -/
 theorem foldArg_sim (te : C.TyEnv) (sp sc : Store) (hrel : Rel te sp sc) (e : Expr) (v : Val)
     (hwt : e.wt te = true) (hpy : Py.eval sp e = .ok v) :
-    (∃ cv, C.eval te sc (foldArg e) = .ok cv ∧ cv.toInt = v.toInt) ∨ C.eval te sc (foldArg e) = .error .overflow := by
+    (∃ cv, C.eval te sc (foldArg e) = .ok cv ∧ cv.toInt = v.toInt) ∨ UB (C.eval te sc (foldArg e)) := by
   unfold foldArg
   cases hc : evalConst e with
   | some w =>
